@@ -9,6 +9,7 @@
  */
 
 #include "zstd_ldm.h"
+#include "../common/zstd_verif.h"  /* ZSTD_VERIF_PROBE : inert unless ZSTD_VERIF_SIM */
 
 #include "../common/debug.h"
 #include "../common/xxhash.h"
@@ -546,6 +547,7 @@ size_t ZSTD_ldm_generateSequences(
             U32 const correction = ZSTD_window_correctOverflow(
                 &ldmState->window, /* cycleLog */ 0, maxDist, chunkStart);
             ZSTD_ldm_reduceTable(ldmState->hashTable, ldmHSize, correction);
+            ZSTD_VERIF_PROBE(ZSTD_VP_ldmOverflowCorrection);
             /* invalidate dictionaries on overflow correction */
             ldmState->loadedDictEnd = 0;
         }
